@@ -20,7 +20,7 @@ LEVEL = "exploration"
 RULE = (
     "confidence: assign_confidence on generated tables (spectrum multiplicity 1..6, peptide repeats, extra level "
     "columns, tie-free and tie-heavy scores) x dedup on/off x rollup on/off x decoys on/off x 1..3 collections "
-    "with/without prefixes x text/Parquet x confidence chunk size {1,7,n-1,n,n+1,default}; rollup_tool: "
+    "with/without prefixes x text/Parquet x confidence chunk size {1,7,0.4n,0.6n,n-1,n,n+1,default} (independent draws); rollup_tool: "
     "brew_rollup.main over 1..3 previously written result sets; cli: python -m mokapot.mokapot with "
     "--skip_deduplication/--skip_rollup/--keep_decoys, judged with the scores of an all-PSM run of the same seed. "
     "Non-trivial = >=1 spectrum and >=1 peptide with multiplicity >=2 whose best and second-best rows differ in "
@@ -39,10 +39,13 @@ def plan(seed, tier):
     n = 60 if tier == "quick" else 900
     cases = []
     for i in range(n):
-        cases.append({"class": "confidence", "index": i, "dedup": bool(i % 2 == 0), "rollup": bool((i // 2) % 3 != 2),
-                      "decoys": bool((i // 3) % 4 != 3), "ncoll": [1, 1, 2, 3][(i // 4) % 4], "prefixes": bool((i // 5) % 2),
-                      "fmt": ["pin", "parquet"][(i // 7) % 2], "chunk": ["default", 1, 7, "n-1", "n", "n+1"][i % 6],
-                      "levels": list(LEVELSETS[(i // 3) % len(LEVELSETS)]), "ties": bool((i // 11) % 2), "cost": 4})
+        # independent draws (modular index arithmetic correlates parameters whose periods share a factor)
+        r = core.seed_seq(seed, "C03", "plan", i)
+        cases.append({"class": "confidence", "index": i, "dedup": bool(r.random() < 0.6), "rollup": bool(r.random() < 0.7),
+                      "decoys": bool(r.random() < 0.75), "ncoll": int(r.choice([1, 1, 2, 3])), "prefixes": bool(r.integers(0, 2)),
+                      "fmt": str(r.choice(["pin", "parquet"])),
+                      "chunk": [int(x) if str(x).isdigit() else str(x) for x in [r.choice(["default", "1", "7", "n-1", "n", "n+1", "0.6n", "0.4n"])]][0],
+                      "levels": list(LEVELSETS[int(r.integers(0, len(LEVELSETS)))]), "ties": bool(r.random() < 0.4), "cost": 4})
     m = 10 if tier == "quick" else 100
     for i in range(m):
         cases.append({"class": "rollup_tool", "index": i, "nsets": 1 + i % 3, "levels": list(LEVELSETS[i % len(LEVELSETS)]),
@@ -144,7 +147,7 @@ def run_confidence(case):
             paths.append(psm.write_parquet(tab, d / f"c{ci}.parquet", row_group_size=int(rng.integers(3, 300)))
                          if case["fmt"] == "parquet" else psm.write_pin(tab, d / f"c{ci}.pin"))
         nmax = max(len(t["df"]) for t in tabs)
-        chunk = {"default": None, 1: 1, 7: 7, "n-1": nmax - 1, "n": nmax, "n+1": nmax + 1}[case["chunk"]]
+        chunk = {"default": None, 1: 1, 7: 7, "n-1": nmax - 1, "n": nmax, "n+1": nmax + 1, "0.6n": int(0.6 * nmax), "0.4n": int(0.4 * nmax)}[case["chunk"]]
         prefixes = [f"coll{ci}" for ci in range(case["ncoll"])] if case["prefixes"] else [None] * case["ncoll"]
         root = ["", "res."][case["index"] % 2]
         ds = pipeline.read_datasets(paths)
